@@ -965,6 +965,7 @@ func runAutoIdx(c *Ctx) {
 	}
 	// the counter: the integer formatted into "sqlite_autoindex_%s_%d"
 	incs := map[*ssa.BinOp]bool{}
+	var badUpdates []*ssa.BinOp
 	seen := map[ssa.Value]bool{}
 	var back func(v ssa.Value)
 	back = func(v ssa.Value) {
@@ -981,6 +982,8 @@ func runAutoIdx(c *Ctx) {
 			if k, ok := constInt(x.Y); ok && x.Op == token.ADD && k == 1 {
 				incs[x] = true
 				back(x.X)
+			} else {
+				badUpdates = append(badUpdates, x)
 			}
 		case *ssa.MakeInterface:
 			back(x.X)
@@ -1022,7 +1025,71 @@ func runAutoIdx(c *Ctx) {
 		c.Undecided("autoindex counter", fn.Pos(), "cannot find the counter formatted into sqlite_autoindex_<table>_<n> (%d format sites, %d increments)", nfmt, len(incs))
 		return
 	}
+	for _, bu := range badUpdates {
+		c.Fail("autoindex counter update", bu.Pos(), "the counter behind sqlite_autoindex_<table>_<n> is changed by something other than +1")
+	}
 	t := &Termer{P: p}
+	// the converse of the increment obligations below: a constraint that made an index of its own advances the counter
+	// before the loop goes on to the next constraint (or the function returns)
+	nGuard := 0
+	for _, cs := range callsIn(fn) {
+		call, ok := cs.(*ssa.Call)
+		if !ok || call.Call.StaticCallee() == nil {
+			continue
+		}
+		name := p.FnKey(call.Call.StaticCallee())
+		if name != "(*db.Schema).addIndex" && name != "(*db.Schema).setPK" {
+			continue
+		}
+		nGuard++
+		key := fmt.Sprintf("autoindex advance after %s#%d", call.Call.StaticCallee().Name(), nGuard)
+		hasBool := false
+		if b, isB := call.Type().Underlying().(*types.Basic); isB && b.Kind() == types.Bool {
+			hasBool = true
+		}
+		paths, ok := EnumLits(call.Block(), instrIndex(call)+1, TabOpts{Termer: t, Limit: 100000,
+			Stop: func(in ssa.Instruction, ps *pathState) bool {
+				return in == in.Block().Instrs[0] && len(ps.Path) > 1 && isLoopHeader(in.Block())
+			}})
+		if !ok {
+			c.Undecided(key, call.Pos(), "too many paths")
+			continue
+		}
+		res := t.Term(call, emptyPS())
+		bad := ""
+		for _, lp := range paths {
+			made := true // an index of its own was made
+			if hasBool {
+				isTrue := lp.Has(res, token.EQL, "true", true) || lp.Has(res, token.EQL, "false", false)
+				isFalse := lp.Has(res, token.EQL, "true", false) || lp.Has(res, token.EQL, "false", true)
+				if name == "(*db.Schema).addIndex" {
+					made = isTrue
+					if !isTrue && !isFalse {
+						made = true // the answer is not looked at: the counter has to move for the `added` case
+					}
+				} else {
+					made = isFalse || (!isTrue && !isFalse) // setPK answers whether it took an earlier index over
+				}
+			}
+			if !made {
+				continue
+			}
+			passed := false
+			for bi, b := range lp.PS.Path {
+				for ii, in := range b.Instrs {
+					if bo, isBO := in.(*ssa.BinOp); isBO && incs[bo] && !(bi == 0 && ii <= instrIndex(call)) {
+						passed = true
+					}
+				}
+			}
+			// the last block of a stopped path was only entered, not executed
+			if !passed {
+				bad = pathDesc(lp)
+				break
+			}
+		}
+		c.Check(bad == "", key, call.Pos(), "when the constraint made an index of its own the counter advances before the next constraint is looked at %s", map[bool]string{true: "", false: "— not on path [" + bad + "]: the next automatic index would get this one's number"}[bad == ""])
+	}
 	k := 0
 	for _, b := range fn.Blocks {
 		for _, in := range b.Instrs {
@@ -1032,7 +1099,7 @@ func runAutoIdx(c *Ctx) {
 			}
 			k++
 			key := fmt.Sprintf("autoindex increment#%d", k)
-			paths, ok := EnumLits(fn.Blocks[0], 0, TabOpts{Termer: t, EventOf: callEvents(p), Limit: 600000,
+			paths, ok := EnumLits(fn.Blocks[0], 0, TabOpts{Termer: t, EventOf: callEvents(p), Limit: 600000, StopGoesOn: inCycle(inc.Block()),
 				Stop: func(i2 ssa.Instruction, ps *pathState) bool { return i2 == ssa.Instruction(inc) }})
 			if !ok {
 				c.Undecided(key, inc.Pos(), "too many paths")
